@@ -355,10 +355,14 @@ func (s *scriptModState) RewriteRcpt(ctx context.Context, to string) ([]string, 
 	s.r.add(MonEvent{Tgt: "mod:" + s.m.ID, Op: "mod:rcpt", Arg: to, Err: es(err)})
 	// Faults["mod:<id>/rewrite"] set: recipients are rewritten to an alias in the same domain (same routing)
 	s.r.mu.Lock()
-	rewrite := s.r.Faults["mod:"+s.m.ID+"/rewrite"] != ""
+	rewrite := s.r.Faults["mod:"+s.m.ID+"/rewrite"]
 	s.r.mu.Unlock()
-	if rewrite && err == nil {
+	if rewrite != "" && err == nil {
 		if at := strings.LastIndexByte(to, '@'); at > 0 {
+			if rewrite == "case" {
+				// another spelling of the same mailbox
+				return []string{SwapCase(to[:at]) + to[at:]}, nil
+			}
 			return []string{to[:at] + "+alias" + to[at:]}, nil
 		}
 	}
@@ -390,4 +394,12 @@ func init() {
 		}
 		return &ScriptModifier{ID: args[0]}, nil
 	})
+}
+
+// SwapCase turns a lower-case local part into upper case and any other one into lower case.
+func SwapCase(local string) string {
+	if strings.ToLower(local) == local {
+		return strings.ToUpper(local)
+	}
+	return strings.ToLower(local)
 }
